@@ -921,6 +921,358 @@ func apiCheckKeys(t *testing.T) {
 	}
 }
 
+// C01 / C08: an independent reference evaluator for a fragment of JSONPath (names, multi-names, wildcard, index,
+// slice, union, recursive descent, existence and comparison filters), written from the step-by-step definition.
+type refStep struct {
+	text string
+	rec  bool // recursive descent: the step applies to every container of the subtree, pre-order
+	sel  func(v interface{}) []interface{}
+}
+
+func refKeys(m map[string]interface{}) []string {
+	ks := make([]string, 0, len(m))
+	for k := range m {
+		ks = append(ks, k)
+	}
+	sort.Strings(ks)
+	return ks
+}
+
+func refName(k string) func(interface{}) []interface{} {
+	return func(v interface{}) []interface{} {
+		if m, ok := v.(map[string]interface{}); ok {
+			if x, ok := m[k]; ok {
+				return []interface{}{x}
+			}
+		}
+		return nil
+	}
+}
+
+func refMulti(ks ...string) func(interface{}) []interface{} {
+	return func(v interface{}) []interface{} {
+		var out []interface{}
+		for _, k := range ks {
+			out = append(out, refName(k)(v)...)
+		}
+		return out
+	}
+}
+
+func refWild(v interface{}) []interface{} {
+	switch x := v.(type) {
+	case map[string]interface{}:
+		var out []interface{}
+		for _, k := range refKeys(x) {
+			out = append(out, x[k])
+		}
+		return out
+	case []interface{}:
+		return append([]interface{}{}, x...)
+	}
+	return nil
+}
+
+func refIndex(i int) func(interface{}) []interface{} {
+	return func(v interface{}) []interface{} {
+		if l, ok := v.([]interface{}); ok {
+			j := i
+			if j < 0 {
+				j += len(l)
+			}
+			if j >= 0 && j < len(l) {
+				return []interface{}{l[j]}
+			}
+		}
+		return nil
+	}
+}
+
+// refSlice: Python slice semantics, bounds given as pointers (nil = omitted)
+func refSlice(lo, hi *int, step int) func(interface{}) []interface{} {
+	return func(v interface{}) []interface{} {
+		l, ok := v.([]interface{})
+		if !ok || step == 0 {
+			return nil
+		}
+		n := len(l)
+		clamp := func(x, low, high int) int {
+			if x < low {
+				return low
+			}
+			if x > high {
+				return high
+			}
+			return x
+		}
+		var out []interface{}
+		if step > 0 {
+			a, b := 0, n
+			if lo != nil {
+				a = *lo
+				if a < 0 {
+					a += n
+				}
+				a = clamp(a, 0, n)
+			}
+			if hi != nil {
+				b = *hi
+				if b < 0 {
+					b += n
+				}
+				b = clamp(b, 0, n)
+			}
+			for i := a; i < b; i += step {
+				out = append(out, l[i])
+			}
+		} else {
+			a, b := n-1, -1
+			if lo != nil {
+				a = *lo
+				if a < 0 {
+					a += n
+				}
+				a = clamp(a, -1, n-1)
+			}
+			if hi != nil {
+				b = *hi
+				if b < 0 {
+					b += n
+				}
+				b = clamp(b, -1, n-1)
+			}
+			for i := a; i > b; i += step {
+				out = append(out, l[i])
+			}
+		}
+		return out
+	}
+}
+
+func refConcat(fs ...func(interface{}) []interface{}) func(interface{}) []interface{} {
+	return func(v interface{}) []interface{} {
+		var out []interface{}
+		for _, f := range fs {
+			out = append(out, f(v)...)
+		}
+		return out
+	}
+}
+
+func refFilter(pred func(member interface{}) bool) func(interface{}) []interface{} {
+	return func(v interface{}) []interface{} {
+		var out []interface{}
+		for _, m := range refWild(v) {
+			if pred(m) {
+				out = append(out, m)
+			}
+		}
+		return out
+	}
+}
+
+func refNum(v interface{}) (float64, bool) {
+	switch x := v.(type) {
+	case float64:
+		return x, true
+	case json.Number:
+		f, err := x.Float64()
+		return f, err == nil
+	}
+	return 0, false
+}
+
+// containers of the subtree of v, pre-order (object members in key order)
+func refContainers(v interface{}, out *[]interface{}) {
+	switch x := v.(type) {
+	case map[string]interface{}:
+		*out = append(*out, v)
+		for _, k := range refKeys(x) {
+			refContainers(x[k], out)
+		}
+	case []interface{}:
+		*out = append(*out, v)
+		for _, e := range x {
+			refContainers(e, out)
+		}
+	}
+}
+
+func refEval(steps []refStep, doc interface{}) []interface{} {
+	cur := []interface{}{doc}
+	for _, st := range steps {
+		var next []interface{}
+		for _, v := range cur {
+			if st.rec {
+				var cs []interface{}
+				refContainers(v, &cs)
+				for _, c := range cs {
+					next = append(next, st.sel(c)...)
+				}
+			} else {
+				next = append(next, st.sel(v)...)
+			}
+		}
+		cur = next
+	}
+	return cur
+}
+
+func refPool() []refStep {
+	ip := func(i int) *int { return &i }
+	hasKey := func(k string) func(interface{}) bool {
+		return func(m interface{}) bool { return len(refName(k)(m)) == 1 }
+	}
+	cmp := func(k string, f func(float64) bool) func(interface{}) bool {
+		return func(m interface{}) bool {
+			vs := refName(k)(m)
+			if len(vs) != 1 {
+				return false
+			}
+			x, ok := refNum(vs[0])
+			return ok && f(x)
+		}
+	}
+	pool := []refStep{
+		{text: ".a", sel: refName("a")}, {text: ".b", sel: refName("b")}, {text: "['c']", sel: refName("c")},
+		{text: "['a','b']", sel: refMulti("a", "b")}, {text: "['b','a','b']", sel: refMulti("b", "a", "b")}, {text: "['a','b','c','a','b']", sel: refMulti("a", "b", "c", "a", "b")},
+		{text: ".*", sel: refWild}, {text: "[*]", sel: refWild},
+		{text: "[0]", sel: refIndex(0)}, {text: "[1]", sel: refIndex(1)}, {text: "[-1]", sel: refIndex(-1)},
+		{text: "[0:2]", sel: refSlice(ip(0), ip(2), 1)}, {text: "[1:]", sel: refSlice(ip(1), nil, 1)}, {text: "[::-1]", sel: refSlice(nil, nil, -1)}, {text: "[-2:]", sel: refSlice(ip(-2), nil, 1)},
+		{text: "[1,0]", sel: refConcat(refIndex(1), refIndex(0))}, {text: "[0,0]", sel: refConcat(refIndex(0), refIndex(0))}, {text: "[0,1:3]", sel: refConcat(refIndex(0), refSlice(ip(1), ip(3), 1))}, {text: "[0,0,1,1,0]", sel: refConcat(refIndex(0), refIndex(0), refIndex(1), refIndex(1), refIndex(0))},
+		{text: "[?(@.a)]", sel: refFilter(hasKey("a"))}, {text: "[?(@.b == 2)]", sel: refFilter(cmp("b", func(x float64) bool { return x == 2 }))}, {text: "[?(@.a > 1)]", sel: refFilter(cmp("a", func(x float64) bool { return x > 1 }))},
+		{text: "[?(!@.a)]", sel: refFilter(func(m interface{}) bool { return !hasKey("a")(m) })},
+	}
+	// recursive descent before each bracket form and a name
+	for _, st := range []refStep{pool[0], pool[3], pool[5], pool[7], pool[10], pool[14], pool[17]} {
+		t := st.text
+		if strings.HasPrefix(t, ".") {
+			t = t[1:]
+		}
+		pool = append(pool, refStep{text: ".." + t, rec: true, sel: st.sel})
+	}
+	return pool
+}
+
+func refDocs() []string {
+	return []string{
+		`{"a":{"a":1,"b":2,"c":[1,2,3]},"b":[{"a":1,"b":2},{"a":2},{"b":2,"c":{"a":3}}],"c":{"b":{"a":[5,6]}}}`,
+		`[{"a":[{"a":1},{"b":2}],"b":2},{"a":2,"b":[1,[2,3]]},[{"a":3,"b":2},4],5]`,
+		`{"b":{"a":2,"b":2},"a":[[1,2],[3]],"c":null}`,
+		`[[1,2,3],[4,5],[],{"a":{"b":{"a":7}}}]`,
+		`{}`, `[]`, `{"a":null}`, `[null,1,"s",true]`,
+		`[{"a":1},{"a":2},{"a":3},{"a":4},{"a":5},{"b":2}]`,
+		`{"a":[10,20,30,40,50],"b":{"p":{"a":1},"q":{"a":2},"r":{"b":2},"s":{"a":4}}}`,
+	}
+}
+
+func refRender(steps []refStep) string {
+	p := "$"
+	for _, s := range steps {
+		p += s.text
+	}
+	return p
+}
+
+func refDecode(ds string, useNumber bool) interface{} {
+	dec := json.NewDecoder(strings.NewReader(ds))
+	if useNumber {
+		dec.UseNumber()
+	}
+	var d interface{}
+	_ = dec.Decode(&d)
+	return d
+}
+
+// C01: every path of the fragment up to depth 3 on every document against the reference evaluator
+func apiCheckSelect(t *testing.T) {
+	pool := refPool()
+	var rec func(prefix []refStep, depth int)
+	rec = func(prefix []refStep, depth int) {
+		if t.Failed() {
+			return
+		}
+		if depth > 0 {
+			path := refRender(prefix)
+			for _, ds := range refDocs() {
+				for _, un := range []bool{false, true} {
+					doc := refDecode(ds, un)
+					want := refEval(prefix, doc)
+					apiCount()
+					got, err := Retrieve(path, doc)
+					if len(want) == 0 {
+						if err == nil {
+							t.Errorf("REPRODUCED: %q on %s: the definition selects nothing but Retrieve returned %s", path, ds, apiSnapshot(got))
+							return
+						}
+						continue
+					}
+					if err != nil || apiSnapshot(got) != apiSnapshot(want) {
+						t.Errorf("REPRODUCED: %q on %s (UseNumber=%v): Retrieve gives %s, %v; the step-by-step definition gives %s", path, ds, un, apiSnapshot(got), err, apiSnapshot(want))
+						return
+					}
+				}
+			}
+		}
+		if depth == 3 {
+			return
+		}
+		for _, s := range pool {
+			if depth == 2 && s.rec {
+				continue // keep the third level to plain steps
+			}
+			rec(append(append([]refStep{}, prefix...), s), depth+1)
+		}
+	}
+	rec(nil, 0)
+}
+
+// C08: P followed by Q equals Q applied to each result of P (three retrievals, no oracle)
+func apiCheckCompose(t *testing.T) {
+	pool := refPool()
+	for _, ds := range refDocs() {
+		doc := refDecode(ds, false)
+		for _, p1 := range pool {
+			for _, p2 := range pool {
+				for qi, q := range pool {
+					if qi%3 != 0 && !q.rec {
+						continue // the last step ranges over a third of the plain steps and every recursive one
+					}
+					if t.Failed() {
+						return
+					}
+					for _, split := range []struct{ p, q []refStep }{{[]refStep{p1}, []refStep{p2, q}}, {[]refStep{p1, p2}, []refStep{q}}} {
+						whole := refRender(append(append([]refStep{}, split.p...), split.q...))
+						apiCount()
+						all, errAll := Retrieve(whole, doc)
+						apiCount()
+						base, _ := Retrieve(refRender(split.p), doc)
+						var want []interface{}
+						for _, v := range base {
+							apiCount()
+							part, err := Retrieve(refRender(split.q), v)
+							if err == nil {
+								want = append(want, part...)
+							}
+						}
+						if len(want) == 0 {
+							if errAll == nil {
+								t.Errorf("REPRODUCED: %q on %s returns %s although %q applied to each result of %q selects nothing", whole, ds, apiSnapshot(all), refRender(split.q), refRender(split.p))
+								return
+							}
+							continue
+						}
+						if errAll != nil || apiSnapshot(all) != apiSnapshot(want) {
+							t.Errorf("REPRODUCED: %q on %s gives %s, %v; %q applied to each result of %q gives %s", whole, ds, apiSnapshot(all), errAll, refRender(split.q), refRender(split.p), apiSnapshot(want))
+							return
+						}
+					}
+				}
+			}
+		}
+	}
+}
+
 // C02: Parse is total
 func apiSyntaxErrOK(err error) bool {
 	switch err.(type) {
@@ -1121,6 +1473,10 @@ func TestVerifReplay(t *testing.T) {
 		apiCheckParseTotal(t)
 	case "C19":
 		apiCheckParseIndependent(t)
+	case "C01":
+		apiCheckSelect(t)
+	case "C08":
+		apiCheckCompose(t)
 	case "C16":
 		apiCheckKeys(t)
 	case "C14":
